@@ -7,11 +7,10 @@ CONSTANTS
   MaxArm = 4
   MaxHb = 1
   EnvWaits = FALSE
-SPECIFICATION FairSpec
+SPECIFICATION Spec
 INVARIANT TypeOK
 INVARIANT Inv_Prefix
 INVARIANT Inv_LastSeq
 INVARIANT Inv_Complete
 INVARIANT Inv_FailBeyondLimit
 INVARIANT Inv_Reconnect
-PROPERTY Live_Ends
